@@ -205,11 +205,13 @@ IO_HCFGS = [
 ]
 
 
-def io_check(run, suites, judge_props, snapshots=True):
+def io_check(run, suites, judge_props, snapshots=True, conc_runs=None, design=None):
     """Generic shape of the trace-validation checks (PearlIO / TraceIO)."""
     se = store.StoreEngine(run)
     io = pvio.IOEngine(run, se)
     run.build()
+    if design:
+        io.tlc_states += design(run)
     first_trace = None
     for s in suites:
         s = dict(s)
@@ -227,6 +229,31 @@ def io_check(run, suites, judge_props, snapshots=True):
                 continue
             first_trace = first_trace or t
             io.judge_trace(t, h, 'tv-%s-%d' % (s['name'], i))
+    # schedules: the file-operation traces of concurrent runs (C12 over schedules), with a quiescence
+    # point after every burst of operations
+    for i, cr in enumerate(conc_runs or []):
+        h = dict(cr['cfg'], seed=run.seed * 10 + i, wait=True)
+        out = os.path.join(run.work, 'cio-%d.out' % i)
+        tr = os.path.join(run.work, 'cio-%d.ndjson' % i)
+        cmd = [os.path.join(BIN, 'conc'), '--cfg', json.dumps(h), '--clients', str(cr['clients']), '--ops', str(cr['ops']), '--keys', '8',
+               '--out', os.path.join(run.work, 'cio-%d.conc' % i), '--io-out', tr, '--sessions', '2', '--rounds', str(cr.get('rounds', 10))]
+        rc = subprocess.run(cmd, stdout=open(out, 'w'), stderr=open(out + '.err', 'w')).returncode
+        if rc != 0 or not os.path.exists(tr):
+            raise ToolError('concurrent driver failed (rc=%s)' % rc)
+        res = io.validate(tr, 'tv-conc-%d' % i)
+        io.traces += 1
+        nev = sum(1 for _ in open(tr))
+        io.events += nev
+        run.log('concurrent run %d (%d clients x %d ops, %s): %d events validated, ok=%s' % (i, cr['clients'], cr['ops'], h['rt'], nev, res['ok']))
+        if not res['ok']:
+            what = ('invariant %s violated after event %s' % (res['inv'], res['rejected_at'])) if res['inv'] else \
+                   ('event %s is not a step the specification allows: %s' % (res['rejected_at'], json.dumps(res['event'])[:300]))
+            prop = pvio.INV_PROP.get(res['inv']) if res['inv'] else pvio.REJECT_PROP.get((res['event'] or {}).get('ev'))
+            ctx = io.context(tr, res['rejected_at'] or 1)
+            if prop == run.prop:
+                run.violation(prop, dict(kind='trace', harness_cfg=h, verdict=what, events=ctx), 'concurrent run, trace validation: ' + what)
+            else:
+                run.notes.append('concurrent trace problem attributed to %s: %s' % (prop, what[:200]))
     if first_trace and not run.violations:
         io.negative_controls(first_trace)
     run.assumptions += [
@@ -235,6 +262,42 @@ def io_check(run, suites, judge_props, snapshots=True):
         'TLC explores nothing here: it replays each recording deterministically and evaluates the invariants after every event',
     ]
     return run.finish('model_checking', io.coverage())
+
+
+def sync_design(run):
+    """PearlSync: every schedule of writers, worker and sync task (small constants) ends with the
+    un-synced acknowledged bytes within the limit; the two repaired deviations are shown to matter."""
+    q = Q(run)
+    states = 0
+    inv = ['BoundedAtQuiescence', 'SyncedLeDurable', 'NoStuck']
+    cfgs = [('sync-2x2-l0', dict(Writers='{1, 2}', OpsPerWriter='2', Limit='0'), q is False),
+            ('sync-2x2-l1', dict(Writers='{1, 2}', OpsPerWriter='2', Limit='1'), False)]
+    if not q:
+        cfgs += [('sync-3x1-l0', dict(Writers='{1, 2, 3}', OpsPerWriter='1', Limit='0'), True),
+                 ('sync-3x1-l1', dict(Writers='{1, 2, 3}', OpsPerWriter='1', Limit='1'), True),
+                 ('sync-2x3-l1', dict(Writers='{1, 2}', OpsPerWriter='3', Limit='1'), False)]
+    for name, consts, live in cfgs:
+        c = dict(consts, Rerequest='TRUE', TrackInflight='TRUE')
+        r = run.tlc('PearlSync', store.cfg_text('SSpec', c, inv, 'PROPERTY SyncTermination\n' if live else ''), name, workers=8, timeout=3000, heap='12g')
+        states += r['distinct']
+        run.log('TLC %s: %d distinct states, ok=%s' % (name, r['distinct'], r['ok']))
+        if not r['ok']:
+            ex = run.tlc_error_excerpt(r)
+            if any('violated' in e for e in r['errors']):
+                run.violation('C12', dict(kind='tlc-counterexample', config=name, text=ex), 'TLC: the sync scheduling design leaves un-synced bytes (%s)\n%s' % (name, ex[:2500]))
+            else:
+                print(ex[:3000])
+                raise ToolError('TLC failed in %s' % name)
+    # sensitivity of the model (negative control): each deviation as found in the pinned tree must be refuted
+    for name, dev in [('sync-found-F18', dict(Rerequest='FALSE', TrackInflight='TRUE')), ('sync-found-F10', dict(Rerequest='TRUE', TrackInflight='FALSE'))]:
+        c = dict(Writers='{1, 2}', OpsPerWriter='2', Limit='0', **dev)
+        r = run.tlc('PearlSync', store.cfg_text('SSpec', c, ['BoundedAtQuiescence']), name, workers=8, timeout=1800, heap='8g')
+        if r['ok'] or not any('BoundedAtQuiescence' in e for e in r['errors']):
+            raise ToolError('negative control: PearlSync with %s was not refuted by TLC' % dev)
+        run.log('negative control %s: refuted by TLC as expected' % name)
+    run.assumptions.append('PearlSync is a design-level model (one step per atomic access of should_try_fsync / Inner::fsyncdata / try_run_fsync_task / File::fsyncdata); '
+                           'its binding to the code is the file-operation trace of concurrent runs validated by TraceIO with a quiescence point after every burst')
+    return states
 
 
 def check_C12(run):
@@ -252,7 +315,11 @@ def check_C12(run):
              restarts_set=store.restarts(dmgs=('keep', 'lose')), nkeys=2,
              simulate=200 if q else 10000, workers=1 if q else 8),
     ]
-    return io_check(run, suites, ['C12'])
+    conc = [dict(clients=16, ops=60 if q else 400, cfg=dict(rt='mt', ks=8, bloom='small', group=2, dirty_limit=200, max_recs=60)),
+            dict(clients=24, ops=40 if q else 300, cfg=dict(rt='ct', ks=8, bloom='off', group=2, dirty_limit=0)),
+            dict(clients=8, ops=80 if q else 600, cfg=dict(rt='mt', ks=8, bloom='off', group=2, dirty_limit=0)),
+            dict(clients=32, ops=30 if q else 200, cfg=dict(rt='mt', ks=8, bloom='small', group=2, dirty_limit=1000, max_recs=200))]
+    return io_check(run, suites, ['C12'], conc_runs=conc, design=sync_design)
 
 
 def check_C07(run):
@@ -780,7 +847,7 @@ def check_C08(run):
     # design level: the required discipline (requests sent after the storage lock is released) has no deadlock
     for name, consts in [('conc-3x2', dict(Clients='{1, 2, 3}', Cap='1', OpsPerClient='2', SendUnderLock='FALSE')),
                          ('conc-4x2', dict(Clients='{1, 2, 3, 4}', Cap='2', OpsPerClient='2' if q else '3', SendUnderLock='FALSE'))]:
-        r = run.tlc('PearlConc', store.cfg_text('CSpec', consts, ['NoDeadlock', 'LockOK']), name, workers=4, timeout=1800)
+        r = run.tlc('PearlConc', store.cfg_text('CSpec', consts, ['NoDeadlock', 'LockOK'], 'PROPERTY Termination\n'), name, workers=4, timeout=1800)
         states += r['distinct']
         trans += r['generated']
         run.log('TLC %s: %d distinct states, ok=%s' % (name, r['distinct'], r['ok']))
